@@ -30,6 +30,7 @@ from hpstatic.weights import Weigher, NA, ZERO, ANY, UNK
 from hpstatic.xrnorm import atom_rewrite
 from . import c16
 from .c05 import subst
+from .common import as_difference, is_sum
 
 MUTATION_TARGETS = {'holopy/core/process/img_proc.py': ['normalize', 'detrend', 'zero_filter', 'subimage', 'bg_correct'], 'holopy/core/io/io.py': ['push', 'mean', 'std'], 'holopy/core/prior.py': ['make_center_priors']}
 
@@ -143,8 +144,8 @@ def bg_correct(check, prog, canon):
         else:
             df = None
             zf = calls_in(holo, IP + 'zero_filter')
-            if zf and zf[0][2][0][0] == 'bin':
-                df = zf[0][2][0][3]
+            if zf and as_difference(zf[0][2][0]) is not None:
+                df = as_difference(zf[0][2][0])[1]
         mode = 'dark field given' if given else 'default dark field'
         if df is None:
             check.bad('T3-bg-correct', 'bg_correct [%s]' % mode,
@@ -296,8 +297,7 @@ def center_priors(check, prog):
         'cf': intern(('call', 'holopy.core.process.centerfinder.center_find',
                       (sym('im'),), ())),
         'sp': intern(('call', MD + 'get_spacing', (sym('im'),), ())), 'im': sym('im')})
-    ok = any(c == want for c in cen) or any(
-        c[2] == want[2] and c[3] == want[3] for c in cen)
+    ok = any(c0.equal(c, want) for c in cen)
     check.require(ok, 'T6-center-priors-dimension', 'make_center_priors centre',
                   'centre = center_find(im) * spacing + (x[0], y[0])', loc,
                   fail_detail='centre terms: %s' % [show(c)[:120] for c in cen])
